@@ -29,7 +29,7 @@ const (
 )
 
 func TestMain(m *testing.M) {
-	vlib.Rule("C27: one fresh bucket per case on a real master+volume+filer+s3 child-process cluster: 0-20 keys over paths of {a,b,ab,a.b} depth<=3 (no key is a path ancestor of another), optionally an in-flight or a completed multipart upload (so .uploads exists) and optionally some keys deleted again (leaving empty directories); 2-6 listing sessions per bucket: ListObjects V1/V2 x prefix (any string prefix of a key, '', 'zz', 'a/', 'a/b') x delimiter {'', '/'} x max-keys {1..5, absent} x continuation style {returned token: NextContinuationToken / NextMarker; last key: start-after / marker = last Contents key (delimiter '' only)}, one third of the delimiter-less sessions starting from an arbitrary client-chosen marker (V1) / start-after (V2) drawn from keys, cuts of keys, directory names and strings before / inside / after the prefix range, followed page by page until IsTruncated=false; against `weed s3` with and without -allowEmptyFolder. Plus a bounded-exhaustive enumerator: fixed trees (all 128 subsets of a 7-key universe in thorough) x 9 prefixes x delimiter x max-keys {1,2,3,absent} x every continuation style x {no, 8 fixed} first markers. Oracle: S3 semantics over the key set, order-insensitive: page size <= max-keys, only matching keys, no .uploads internals, common prefixes only with '/', every expected key / common prefix exactly once over the pages, pagination terminates; afterwards every key still GETs its content. Non-trivial = a truncated listing (>=2 pages) with a prefix or a delimiter.")
+	vlib.Rule("C27: one fresh bucket per case on a real master+volume+filer+s3 child-process cluster: 0-20 keys over paths of {a,b,ab,a.b} depth<=3 (no key is a path ancestor of another), optionally an in-flight or a completed multipart upload (so .uploads exists) and optionally some keys deleted again (leaving empty directories); 2-6 listing sessions per bucket: ListObjects V1/V2 x prefix (any string prefix of a key, '', 'zz', 'a/', 'a/b') x delimiter {'', '/'} x max-keys {1..5, absent} x continuation style {returned token: NextContinuationToken / NextMarker; last key: start-after / marker = last Contents key (delimiter '' only)}, one third of the delimiter-less sessions starting from an arbitrary client-chosen marker (V1) / start-after (V2) drawn from keys, cuts of keys, directory names and strings before / inside / after the prefix range, followed page by page until IsTruncated=false; against `weed s3` with and without -allowEmptyFolder. Plus a bounded-exhaustive enumerator: fixed trees (all 128 subsets of a 7-key universe in thorough) x 9 prefixes x delimiter x max-keys {1,2,3,absent} x every continuation style x {no, 8 fixed} first markers; V2 token sessions with a start-after repeat it next to every continuation-token. A second enumerator lists a fixed tree whose objects are interleaved by name with entries the listing receives but does not report (an emptied folder, a folder holding only an empty folder, .uploads), in the root and below p/, with max-keys 1..5 and markers naming the neighbouring entries. Oracle: S3 semantics over the key set, order-insensitive: page size <= max-keys, only matching keys, no .uploads internals, common prefixes only with '/', every expected key / common prefix exactly once over the pages, pagination terminates; afterwards every key still GETs its content. Non-trivial = a truncated listing (>=2 pages) with a prefix or a delimiter.")
 	vlib.Assume("bucket contents are those SeaweedFS can hold: no key is a path ancestor (directory) of another key, no key ends in '/'; listing order is not compared with S3's byte order (the statement only asks for exactly-once enumeration); an arbitrary first marker / start-after is only combined with delimiter '' and judged by set semantics: keys after it in byte order (S3) and in directory-tree order (SeaweedFS) must be enumerated, keys after it in neither must not, keys on which the two orders disagree (names like a.b next to a/) may; prefixes do not start with '/'")
 	vlib.Assume("with -allowEmptyFolder a directory emptied by deletes may be reported as a common prefix (that is what the flag is for); without the flag it must not appear")
 	vlib.Main(m)
@@ -269,6 +269,7 @@ type listReq struct {
 	maxKeys int    // 0 = parameter absent
 	style   string // "token" | "lastkey"
 	start   string // arbitrary client-chosen marker (V1) / start-after (V2) of the first request; "" = from the beginning
+	repeat  bool   // V2, continue-by token: follow-up requests repeat start-after next to the continuation-token (as SDK paginators do)
 }
 
 func (r listReq) String() string {
@@ -283,6 +284,9 @@ func (r listReq) String() string {
 	st := ""
 	if r.start != "" {
 		st = fmt.Sprintf(" first-marker/start-after=%q", r.start)
+		if r.repeat && r.v2 && r.style == "token" {
+			st += " (start-after repeated with every continuation-token)"
+		}
 	}
 	return fmt.Sprintf("%s prefix=%q delimiter=%q max-keys=%s continue-by=%s%s", v, r.prefix, r.delim, mk, r.style, st)
 }
@@ -361,6 +365,10 @@ func runSession(b *bucketState, r listReq) (pages int, trace string, cut bool, e
 			case r.v2 && pages == 0:
 				params = append(params, [2]string{"start-after", cont}) // the client's own start position
 			case r.v2 && r.style == "token":
+				if r.repeat && r.start != "" {
+					// the token decides where the page starts; start-after is only the original parameter sent again
+					params = append(params, [2]string{"start-after", r.start})
+				}
 				params = append(params, [2]string{"continuation-token", cont})
 			case r.v2:
 				params = append(params, [2]string{"start-after", cont})
@@ -542,6 +550,9 @@ func classes(b *bucketState, r listReq, pages int) []string {
 		pg = "pages-3+"
 	}
 	out := []string{v + "-" + d + "-" + r.style, pg, prefixKind(b, r.prefix), "multipart-" + b.mp}
+	if r.start != "" && r.repeat && r.v2 && r.style == "token" && pages >= 2 {
+		out = append(out, "start-after-repeated-with-token")
+	}
 	if r.start != "" {
 		switch {
 		case strings.HasPrefix(r.start, r.prefix):
@@ -593,7 +604,7 @@ func genStart(t *rapid.T, b *bucketState, prefix string) string {
 		d := rapid.SampledFrom(ds).Draw(t, "startDir")
 		cands = append(cands, d, d+"/", d+"/0", d+"/zz")
 	}
-	cands = append(cands, "A", "0", "zz", "c", "a/x", "b/a", "b/c/1", "ab/0", "a.b/a.b")
+	cands = append(cands, "A", "0", "zz", "c", "a/x", "b/a", "b/c/1", "ab/0", "a.b/a.b", "-", "!") // "-" and "!" sort even before .uploads
 	if prefix != "" {
 		cands = append(cands, prefix, prefix+"0", prefix+"a", prefix+"ab/0", prefix+"b/zz", prefix+"zz", prefix[:len(prefix)-1])
 		if len(prefix) > 1 {
@@ -711,6 +722,7 @@ func TestPropListPagination(t *testing.T) {
 				r.style = "token"
 			} else if rapid.IntRange(0, 2).Draw(t, "arbitraryStart") == 0 {
 				r.start = genStart(t, b, r.prefix)
+				r.repeat = rapid.Bool().Draw(t, "repeatStartAfter")
 			}
 			r = applyKnown(b, r)
 			pages, trace, cut, err := runSession(b, r)
@@ -802,7 +814,7 @@ func TestPropListExhaustive(t *testing.T) {
 								if (style == "lastkey" || start != "") && delim != "" {
 									continue
 								}
-								r := applyKnown(b, listReq{v2: v2, prefix: prefix, delim: delim, maxKeys: mk, style: style, start: start})
+								r := applyKnown(b, listReq{v2: v2, prefix: prefix, delim: delim, maxKeys: mk, style: style, start: start, repeat: true})
 								pages, trace, cut, err := runSession(b, r)
 								if err != nil {
 									t.Fatalf("%s\n  %s\n  violation: %v\n  pages: %s", b.describe(), r, err, trace)
@@ -826,4 +838,58 @@ func TestPropListExhaustive(t *testing.T) {
 		}
 	}
 	vlib.Exhaustive(fmt.Sprintf("%d-trees-x-9-prefixes-x-delimiter-x-maxkeys-x-styles-x-8-start-markers", len(subsets)), true)
+}
+
+// Directories interleaved (by name) with objects that the listing receives from the filer but
+// does not report: an emptied folder, a folder holding only an empty folder, and .uploads of an
+// in-progress multipart upload, both in the bucket root and below p/. Every window arithmetic
+// (max-keys 1..5, markers naming entries next to them) is enumerated.
+func TestPropListSkippedEntries(t *testing.T) {
+	cluster(t)
+	puts := []string{"a", "b/x", "c", "d/e/x", "e", "f", "g/y", "h", "p/a", "p/b/x", "p/c", "p/d/e/x", "p/e", "p/f"}
+	del := []string{"b/x", "d/e/x", "p/b/x", "p/d/e/x"}
+	for idx, allowE := range []bool{false, true} {
+		if !vlib.ShardOwns(idx) {
+			continue
+		}
+		cli := s3Plain
+		if allowE {
+			cli = s3Empty
+		}
+		b := setupBucket(t, cli, allowE, puts, del, "inflight", "zz/mp")
+		// delimiter "" first: without -allowEmptyFolder a listing with delimiter "/" removes the empty folders
+		for _, delim := range []string{"", "/"} {
+			for _, prefix := range []string{"", "p/"} {
+				for _, mk := range []int{1, 2, 3, 4, 5, 0} {
+					for _, v2 := range []bool{false, true} {
+						for _, sty := range []string{"token", "lastkey", "@-", "@a", "@c", "@e", "@p/-", "@p/a", "@p/c"} {
+							style, start := sty, ""
+							if sty[0] == '@' {
+								style, start = "token", sty[1:]
+							}
+							if (style == "lastkey" || start != "") && delim != "" {
+								continue
+							}
+							r := applyKnown(b, listReq{v2: v2, prefix: prefix, delim: delim, maxKeys: mk, style: style, start: start, repeat: true})
+							pages, trace, cut, err := runSession(b, r)
+							if err != nil {
+								t.Fatalf("%s\n  %s\n  violation: %v\n  pages: %s", b.describe(), r, err, trace)
+							}
+							nt := pages >= 2 && (r.prefix != "" || r.delim != "")
+							cls := append([]string{"skipped-entries-tree"}, classes(b, r, pages)...)
+							if cut {
+								cls = append(cls, "cut-by-known-finding")
+							}
+							vlib.Case(b.describe()+" "+r.String()+" -> "+trace, nt, cls...)
+						}
+					}
+				}
+			}
+		}
+		if err := verifyContents(b); err != nil {
+			t.Fatalf("%s: %v", b.describe(), err)
+		}
+		b.drop()
+	}
+	vlib.Exhaustive("skipped-entries-tree-x-2-prefixes-x-delimiter-x-maxkeys-1..5-x-styles-x-7-start-markers", true)
 }
